@@ -1,7 +1,7 @@
 (* C12 - Every shuffle is a permutation, for every iterator in flight.  The random generator is an oracle:
    whatever permutation / choice numpy produces is a universally quantified argument. *)
 From Coq Require Import List Arith Bool Permutation.
-Require Import LD.Shuffle LD.ShuffleProofs.
+Require Import LD.Shuffle LD.ShuffleProofs LD.ShuffleFreeze LD.ShuffleFreezeProofs.
 Require LD.Ref.
 Import ListNotations.
 
@@ -60,3 +60,22 @@ Theorem C12_local_shuffle_displacement : forall B choices sigma n,
   forall i j, nth_error (local_shuffle B choices sigma (seq 0 n) 0) i = Some j -> j <= i + B - 1.
 Proof. exact local_shuffle_displacement. Qed.
 Print Assumptions C12_local_shuffle_displacement.
+
+(* frozen copies of a per-epoch reshuffle in flight (copy(freeze=True); catch / lazy apply / multi-worker prefetch take one
+   per iteration) - ShuffleFreeze.v: for EVERY history of epochs and next() calls on the source object, further freezes
+   and next() calls on iterators over the frozen copies, and every oracle permutation: an iterator over a frozen copy
+   never yields an example twice, and once exhausted it has yielded every example exactly once *)
+Theorem C12_frozen_copy_in_flight_nodup : forall n ops it c p, Forall (fop_ok n) ops ->
+  nth_error (fpos (frun (finit n) ops)) it = Some (c, p) -> NoDup (nth it (fouts (frun (finit n) ops)) []).
+Proof. exact frozen_iteration_nodup. Qed.
+Theorem C12_frozen_copy_exhausted_is_perm : forall n ops it c p, Forall (fop_ok n) ops ->
+  nth_error (fpos (frun (finit n) ops)) it = Some (c, p) -> c < length (frozen (frun (finit n) ops)) ->
+  p = length (nth c (frozen (frun (finit n) ops)) []) -> Permutation (nth it (fouts (frun (finit n) ops)) []) (seq 0 n).
+Proof. exact frozen_iteration_is_the_copy_lt. Qed.
+(* the same model with a frozen copy that keeps a reference to the source's index array instead of a snapshot
+   (what the seeded changes C12b / C13c do) is refuted *)
+Theorem C12_frozen_alias_refuted : exists n ops it, Forall (fop_ok n) ops /\ ~ NoDup (nth it (fouts (frun_alias (finit n) ops)) []).
+Proof. exact frozen_alias_refuted. Qed.
+Print Assumptions C12_frozen_copy_in_flight_nodup.
+Print Assumptions C12_frozen_copy_exhausted_is_perm.
+Print Assumptions C12_frozen_alias_refuted.
